@@ -22,6 +22,12 @@ type zcWriter struct {
 
 var _ bufiox.Writer = (*zcWriter)(nil)
 
+// bxVal hands a bufiox.Writer over as a struct VALUE (the interface may be implemented on any type).
+type bxVal struct {
+	bufiox.Writer
+	tag int
+}
+
 func (w *zcWriter) Malloc(n int) ([]byte, error) {
 	if w.OnOp != nil {
 		w.OnOp()
